@@ -45,7 +45,9 @@ func TestC09Health(t *testing.T) {
 		case ".ack":
 			payload = ".ack close connection"
 		}
-		h.Write([]byte(fmt.Sprintf("protocol 4.1 base64 %s;", base64.StdEncoding.EncodeToString([]byte(payload)))))
+		// like the server's two copy loops: the command direction runs beside the reading direction (a handler
+		// may hold Write until the client has read what is queued)
+		go h.Write([]byte(fmt.Sprintf("protocol 4.1 base64 %s;", base64.StdEncoding.EncodeToString([]byte(payload)))))
 		var sb strings.Builder
 		buf := make([]byte, 32*1024)
 		deadline := time.Now().Add(8 * time.Second)
@@ -54,7 +56,7 @@ func TestC09Health(t *testing.T) {
 			n, err := h.Read(buf)
 			sb.Write(buf[:n])
 			if strings.Contains(sb.String(), ".syn close connection") {
-				h.Write([]byte("protocol 4.1 base64 " + base64.StdEncoding.EncodeToString([]byte(".ack close connection")) + ";"))
+				go h.Write([]byte("protocol 4.1 base64 " + base64.StdEncoding.EncodeToString([]byte(".ack close connection")) + ";"))
 				r.Ended = true
 				break
 			}
